@@ -12,8 +12,10 @@ import (
 
 	"github.com/kubewharf/kubebrain/pkg/backend"
 	"github.com/kubewharf/kubebrain/pkg/storage"
+	badgerkv "github.com/kubewharf/kubebrain/pkg/storage/badger"
 	"github.com/kubewharf/kubebrain/pkg/storage/memkv"
 	smetrics "github.com/kubewharf/kubebrain/pkg/storage/metrics"
+	"github.com/kubewharf/kubebrain/pkg/zzc11"
 	"github.com/kubewharf/kubebrain/pkg/zzmodel"
 	"github.com/kubewharf/kubebrain/pkg/zzverif"
 )
@@ -56,9 +58,14 @@ func same(a, b answer, what string) {
 	}
 }
 
-// VerifC12Engines: contract store vs real in-memory adapter vs metrics wrapper around it.
+// VerifC12Engines: contract store, in-memory, Badger, TiKV (mock cluster) and the metrics wrapper (over Badger).
 func VerifC12Engines() {
-	nodes := []backend.Backend{node(zzmodel.NewStore()), node(memkv.NewKvStorage()), node(smetrics.NewKvStorage(memkv.NewKvStorage(), zzmodel.NoMetrics{}))}
+	bd, err := badgerkv.NewKvStorage(badgerkv.Config{Dir: zzverif.TempDir()})
+	zzverif.Assert(err == nil, "badger opens")
+	bd2, err := badgerkv.NewKvStorage(badgerkv.Config{Dir: zzverif.TempDir()})
+	zzverif.Assert(err == nil, "badger opens")
+	nodes := []backend.Backend{node(zzmodel.NewStore()), node(memkv.NewKvStorage()), node(bd), node(zzc11.NewMockTiKV()),
+		node(smetrics.NewKvStorage(bd2, zzmodel.NoMetrics{}))}
 	n := zzverif.Param("requests", 3)
 	for i := 0; i < n; i++ {
 		tag := "q" + string(rune('0'+i))
